@@ -28,6 +28,9 @@ EXTRA_FLAGS = ["--verbose-graph", "--verbose-quantization", "--verbose-packing",
                "--recursion-limit=2000"]
 
 
+VELA_ERRORS = ("VelaError", "InputFileError", "UnsupportedFeatureError", "CliOptionError", "ConfigOptionError", "AllocationError", "ByteAlignmentError", "ByteSizeError")
+
+
 def crash_tags(spec, cfg=None):
     import constructs
 
@@ -45,6 +48,9 @@ def classify(res, case):
     out = res["stdout"]
     if res["exc"] is not None:
         t, msg, frame, tb = res["exc"]
+        if t in VELA_ERRORS and case.get("entry", "main") in ("convert", "convert_bytes"):
+            # the library entry points report a rejection by raising the compiler's own error type (the command line catches it and prints 'Error: ...')
+            return "rejected", [msg[:200]]
         raise Violation("C13/crash/%s@%s" % (t, frame), "%s: %s" % (t, msg), case, tags=crash_tags(case["spec"], case["cfg"]))
     if "Traceback (most recent call last)" in out:
         m = re.findall(r'File "[^"]*/ethosu/([^"]+)", line \d+, in (\w+)', out)
@@ -88,6 +94,17 @@ def strategy(profile="wide"):
 
     @st.composite
     def case(draw):
+        if profile == "symweights":
+            # signed weights with non-zero zero points (per channel or per tensor), mostly together with the option that exists for them
+            import copy
+            import corners
+
+            spec = copy.deepcopy(draw(tflgen.network(draw(st.sampled_from(["convs", "convs", "npu"])), max_ops=3, big=False, dtypes=("int8", "int8", "int16"))))
+            spec["corners"] = [c for c in [corners.asym_perchannel(spec, draw, st) for _ in range(draw(st.integers(1, 2)))] if c]
+            cfg = draw(tflgen.config())
+            if draw(st.integers(0, 3)) != 0:
+                cfg["extra"] = ["--force-symmetric-int-weights"]
+            return dict(kind="compile", spec=spec, cfg=cfg, entry="main")
         if profile == "corners":
             import corners
 
@@ -99,6 +116,8 @@ def strategy(profile="wide"):
         entry = draw(st.sampled_from(["main"] * 8 + ["convert", "convert_bytes"]))
         if entry == "main" and draw(st.integers(0, 3)) == 0:
             cfg["extra"] = draw(st.lists(st.sampled_from(EXTRA_FLAGS), min_size=1, max_size=3, unique=True))
+        if entry == "main" and any(c.startswith("asym-per") or c.startswith("odd-quant/zp") for c in spec.get("corners", [])) and draw(st.booleans()):
+            cfg["extra"] = sorted(set(cfg.get("extra", []) + ["--force-symmetric-int-weights"]))  # the option that rewrites weight zero points
         return dict(kind="compile", spec=spec, cfg=cfg, entry=entry)
 
     return case()
@@ -155,7 +174,7 @@ def parts(ctx):
     q = ctx.quick
     return [Part("wide%02d" % i, compiles, (i, 45 if q else 2000, "wide")) for i in range(12)] + [Part("npu%02d" % i, compiles, (i, 45 if q else 1000, "npu")) for i in range(4)] + [
         Part("reshapes%02d" % i, compiles, (i, 40 if q else 1500, "reshapes")) for i in range(4)] + [Part("corners%02d" % i, compiles, (i, 50 if q else 2000, "corners")) for i in range(4)] + [
-        Part("tall%02d" % i, compiles, (i, 30 if q else 800, "tall")) for i in range(2)] + [
+        Part("tall%02d" % i, compiles, (i, 30 if q else 800, "tall")) for i in range(2)] + [Part("symweights%02d" % i, compiles, (i, 30 if q else 800, "symweights")) for i in range(1)] + [
         Part("atheris%02d" % i, atheris_part, (i, 150 if q else 6000, [["corners"], ["wide", "npu"], ["corners", "tall"], ["cpumix", "reshapes"]][i % 4])) for i in range(2 if q else 16)] + [Part("fanout%02d" % i, compiles, (i, 40 if q else 1500, "fanout")) for i in range(2)]
 
 
